@@ -14,7 +14,7 @@ from typing import List, Optional
 from ..model import FuncInfo, ClassInfo, strip_opt, iter_own_nodes
 from ..ordertaint import OrderTaint
 from ..flow import always_raises
-from .shared import entry_points_build, module_state_instances
+from .shared import alpha_text, entry_points_build, module_state_instances
 
 FORBIDDEN_MODULES = {'time', 'datetime', 'random', 'uuid', 'secrets', 'socket', 'platform', 'getpass',
                      'tempfile', 'threading', 'multiprocessing', 'subprocess', 'locale', 'pwd'}
@@ -102,13 +102,13 @@ def _justify_pop(ctx, fn: FuncInfo, call: ast.Call) -> Optional[str]:
     post = ctx.prog.lookup_method(fn.cls, '__post_init__')
     if post is None:
         return None
-    want = ast.dump(expr)
+    want = alpha_text(expr)
     for n in iter_own_nodes(post.node):
         if isinstance(n, ast.If) and always_raises(n.body) and isinstance(n.test, ast.Compare) \
                 and len(n.test.ops) == 1:
             left, op, right = n.test.left, n.test.ops[0], n.test.comparators[0]
             if isinstance(left, ast.Call) and isinstance(left.func, ast.Name) and left.func.id == 'len' \
-                    and left.args and ast.dump(left.args[0]) == want and isinstance(right, ast.Constant):
+                    and left.args and alpha_text(left.args[0]) == want and isinstance(right, ast.Constant):
                 if (isinstance(op, ast.Gt) and right.value == 1) or (isinstance(op, ast.GtE) and right.value == 2) \
                         or (isinstance(op, ast.NotEq) and right.value in (0, 1)):
                     return (f'{fn.cls.name}.__post_init__ rejects more than one element of the same set '
